@@ -80,6 +80,7 @@ type world struct {
 	disposed bool // ServerManager.Dispose was the end kind: the manager must not be disposed again
 	lastTs   uint32
 	pushes   []*pushConn // push connections of the current incarnation
+	late     []*stub.Conn // accepted, handshake withheld until the input has ended (PushLate)
 	tickSeq  uint32
 }
 
@@ -246,6 +247,7 @@ func (w *world) quiesce(inp *input, what string) {
 // goroutine has finished).
 func (w *world) establishPushes(i int) {
 	w.pushes = nil
+	w.late = nil
 	if len(w.stubs) == 0 {
 		return
 	}
@@ -262,6 +264,10 @@ func (w *world) establishPushes(i int) {
 				t := w.tickSeq%900 + 1 // never a multiple of sweepTick
 				w.s.Call("Tick", func() { w.group().Tick(t) })
 			}
+		}
+		if w.c.Incs[i].PushLate {
+			w.late = append(w.late, sc)
+			continue
 		}
 		pc := &pushConn{stubIdx: si, c: sc, ready: make(chan error, 1), closed: make(chan struct{})}
 		go func() {
@@ -325,7 +331,7 @@ func (w *world) incarnation(i int) *pbt.Violation {
 	if inp.kind == "rtmp" {
 		w.establishPushes(i)
 	} else {
-		w.pushes = nil
+		w.pushes, w.late = nil, nil
 	}
 	incStart := len(w.P)
 	for k := 0; k <= len(in.Items); k++ {
